@@ -150,6 +150,21 @@ def int_threshold_cases(rng, quick):
     return out
 
 
+def bigint_threshold_cases(rng, quick):
+    """64-bit integer data beyond 2**53 with a float threshold: comparing through float64 would round the data."""
+    out = []
+    for _ in range(40 if quick else 500):
+        dt = rng.choice(['int64', 'int64', 'uint64'])
+        B = 2 ** rng.choice([53, 54, 60, 62]) * rng.choice([1, 1, -1] if dt == 'int64' else [1])
+        vals = [B + rng.randint(-6, 6) for _ in range(rng.randint(3, 8))]
+        arr = np.array(vals, dtype=dt)
+        t = float(B + rng.choice([0, 0, 2, -2, 4]))          # representable: a multiple of the float spacing there
+        if float(t) != t or int(t) != t:
+            continue
+        out.append((arr, float(t), rng.choice(['pyfloat', 'np64'])))
+    return out
+
+
 def float_threshold_oracle(arr, t, kind):
     from astrodendro import Dendrogram
     import fractions
@@ -160,10 +175,11 @@ def float_threshold_oracle(arr, t, kind):
     if fractions.Fraction(float(d.params['min_value'])) != fractions.Fraction(t):
         fails.append('recorded min_value %r is not the requested %r' % (d.params['min_value'], t))
     for i in range(arr.size):
-        above = fractions.Fraction(float(arr[i])) > fractions.Fraction(float(d.params['min_value']))
+        exact = fractions.Fraction(int(arr[i])) if arr.dtype.kind in 'iu' else fractions.Fraction(float(arr[i]))
+        above = exact > fractions.Fraction(float(d.params['min_value']))
         if above != (lab[i] >= 0):
             fails.append('pixel %d = %r (dtype %s) is %sstrictly above min_value %r but is %slabelled' % (
-                i, float(arr[i]), arr.dtype, '' if above else 'not ', d.params['min_value'], '' if lab[i] >= 0 else 'not '))
+                i, arr[i].item(), arr.dtype, '' if above else 'not ', d.params['min_value'], '' if lab[i] >= 0 else 'not '))
             break
     return fails
 
@@ -174,7 +190,7 @@ _explore0 = explore
 def explore(ctx):
     _explore0(ctx)
     rng = ctx.rng('floatthr')
-    for arr, t, kind in float_threshold_cases(rng, ctx.quick) + int_threshold_cases(rng, ctx.quick):
+    for arr, t, kind in float_threshold_cases(rng, ctx.quick) + int_threshold_cases(rng, ctx.quick) + bigint_threshold_cases(rng, ctx.quick):
         try:
             fails = float_threshold_oracle(arr, t, kind)
         except Exception as e:
@@ -182,7 +198,7 @@ def explore(ctx):
         ctx.count('float_threshold/%s' % kind)
         ctx.case_done(None)
         if fails:
-            ctx.oracle_failure({'array': [float(x) for x in arr], 'dtype': str(arr.dtype), 'min_value': t,
+            ctx.oracle_failure({'array': [x.item() for x in arr], 'dtype': str(arr.dtype), 'min_value': t,
                                 'threshold_kind': kind, 'stream': 'float-threshold'}, fails)
 
 
